@@ -121,6 +121,13 @@ def check(run):
     run.check(ok, 'R4', 'run-loop-condition', 'sim::simulation::run', rn.loc(), 'run() loop condition is not (work was executed && !m_stopped): %s' % conds,
               'run() continues exactly while the last round executed something and the stop flag is clear')
 
+    run.clause('the front of the timer queue is the earliest expiry: sorted insert, and the sort key is never written while the timer is queued (shared with C03)')
+    import p03
+    p03.sortedness_rules(run)
+    rs = [c for c in rn.calls() if (c.get('callee') or '').endswith('io_context::restart') and q.render(rn, c.get('obj')) == 'm_service']
+    run.check(bool(rs) and bool(polls) and all(any(q.precedes(rn, r, p) and rn.cfg.node_block(r) == rn.cfg.node_block(p) for r in rs) for p in polls), 'R4', 'restart-before-poll', 'sim::simulation::run', rn.loc(),
+              'the message queue is not restarted immediately before each poll (a stopped queue polls nothing and the clock runs ahead of ready handlers)', 'm_service.restart() precedes every poll')
+
     run.clause('R2 stop flag written only by stop/restart/run catch-all')
     engines.r2_writer_table(run, 'sim::simulation::m_stopped', {
         'sim::simulation::stop': 'sets', 'sim::simulation::restart': 'clears', 'sim::simulation::run': 'catch-all sets before rethrow'},
@@ -131,6 +138,14 @@ def check(run):
         acc = [a for a in q.field_accesses(f, {'sim::simulation::m_stopped'}) if a.kind == 'assign']
         good = len(acc) == 1 and q.strip_casts(acc[0].site['rhs']).get('v') is val and f.cfg.dominates(f.cfg.node_block(acc[0].site), f.cfg.exit)
         run.check(good, 'R2', 'stop-flag-value', name, f.loc(), '%s does not assign m_stopped = %s on every path' % (name, str(val).lower()), 'assigns %s' % str(val).lower())
+    # stop() must not touch the message queue: stopping the underlying io_context makes poll() return with ready
+    # handlers still queued, and run() then advances the clock past them
+    f = fx.fn1('sim::simulation::stop')
+    other = [a for a in q.field_accesses(f) if (a.is_write or a.kind == 'method') and a.field != 'sim::simulation::m_stopped']
+    mq = [c for c in f.calls() if 'm_service' in q.render(f, c) or 'get_internal_service' in q.render(f, c)]
+    run.check(not other and not mq, 'R2', 'stop-effect', 'sim::simulation::stop', f.loc(),
+              'stop() also touches %s: stopping or draining the underlying message queue leaves handlers that are already ready un-run while run() still jumps the clock to the next timer' % ([a.field.split('::')[-1] for a in other] + [q.render(f, c) for c in mq]),
+              'stop() only sets the flag (ready handlers still run before run() returns)')
     # restart must not touch the clock or the queues
     f = fx.fn1('sim::simulation::restart')
     other = [a for a in q.field_accesses(f) if a.is_write and a.field != 'sim::simulation::m_stopped']
